@@ -94,3 +94,19 @@ func C07SignatureText() {
 		}
 	})
 }
+
+// C08LongList: a list of 70 dynamic values cut anywhere inside its last 8 elements (beyond any
+// preallocated part): refused.
+func C08LongList() {
+	v := zzLongList(70)
+	if sym.Bool("nested") {
+		v = List([]Value{String("head"), v})
+	}
+	var buf bytes.Buffer
+	sym.Assert(v.Write(&buf) == nil, "encode-ok")
+	enc := buf.Bytes()
+	k := sym.Concrete(sym.Int("cut", len(enc)-72, len(enc)-1))
+	_, err := NewValue(bytes.NewReader(enc[:k]))
+	sym.Assert(err != nil, "truncated-long-list")
+	sym.Reach("cut-checked")
+}
